@@ -926,8 +926,17 @@ class Translation:
                         mod.__dict__[other] = self._stub(ospec)
                 TRACER.cur = st
                 args = self._make_args(spec, d["statics"], perm)
+                originals = [a.copy() if isinstance(a, _np.ndarray) else None for a in args]
                 try:
                     out = fn(*args)
+                    # a kernel that writes into its array arguments is not a pure function of
+                    # them: calls of it could not be kept as calls in the model -> fail closed
+                    for (pname, pkind, _), a, a0 in zip(spec.params, args, originals):
+                        if a0 is not None and pkind in ("arr", "static"):
+                            fa, f0 = a.reshape(-1), a0.reshape(-1)
+                            if len(fa) != len(f0) or any(x is not y for x, y in zip(fa, f0)):
+                                raise TranslatorUnsupported(
+                                    f"{spec.pyname} mutates its array argument `{pname}` in place")
                     leaf = ("ret", _norm_ret(out))
                 except TranslatorUnsupported:
                     raise
